@@ -10,6 +10,11 @@ import (
 	"fmt"
 	"sort"
 	"strings"
+	"sync"
+	"sync/atomic"
+	"time"
+
+	"github.com/skx/evalfilter/v2/code"
 
 	"github.com/skx/evalfilter/v2"
 	"github.com/skx/evalfilter/v2/object"
@@ -19,6 +24,8 @@ import (
 type RunStep struct {
 	Act string          `json:"act"` // "exec" (default) | "run": call Run and observe its verdict
 	Obj json.RawMessage `json:"obj"` // [[field, value]...] (map object); absent = nil object
+	NilObj bool         `json:"nilobj"` // pass an untyped nil as the object
+	Pre json.RawMessage `json:"pre"` // the variables the evaluator holds before this run (C07: fresh-evaluator oracle)
 	Exp *Expect         `json:"exp"`
 }
 
@@ -59,6 +66,7 @@ type Outcome struct {
 	Calls    []Call
 	Scopes   int
 	Steps    int
+	Idle     string // non-empty: the machine was not left as it was found
 }
 
 func (o Outcome) describe() string {
@@ -89,6 +97,82 @@ func (o Outcome) class() string {
 type Machine struct {
 	E     *evalfilter.Eval
 	calls []Call
+	ctx   *resetCtx
+	steps *int64 // instructions dispatched in the current run (nil: not counted)
+}
+
+// resetCtx is a context the harness can cancel and re-arm between runs, so that one
+// prepared evaluator can see a deadline expire in one run and be live again in the next.
+type resetCtx struct {
+	mu   sync.Mutex
+	done chan struct{}
+	err  error
+}
+
+func newResetCtx() *resetCtx { return &resetCtx{done: make(chan struct{})} }
+
+func (c *resetCtx) Deadline() (time.Time, bool) { return time.Time{}, false }
+func (c *resetCtx) Done() <-chan struct{} {
+	c.mu.Lock()
+	defer c.mu.Unlock()
+	return c.done
+}
+func (c *resetCtx) Err() error {
+	c.mu.Lock()
+	defer c.mu.Unlock()
+	return c.err
+}
+func (c *resetCtx) Value(key interface{}) interface{} { return nil }
+func (c *resetCtx) cancel() {
+	c.mu.Lock()
+	defer c.mu.Unlock()
+	if c.err == nil {
+		c.err = context.Canceled
+		close(c.done)
+	}
+}
+func (c *resetCtx) reset() {
+	c.mu.Lock()
+	defer c.mu.Unlock()
+	if c.err != nil {
+		c.err = nil
+		c.done = make(chan struct{})
+	}
+}
+
+// per-VM instruction counters fed by the step hook (only registered machines are counted)
+type stepInfo struct {
+	n      int64
+	budget int64
+	ctx    *resetCtx
+}
+
+var stepTable sync.Map // *vm.VM -> *stepInfo
+
+func init() {
+	vm.VerifStepHook = func(m *vm.VM, ip int, op code.Opcode, arg int) {
+		if v, ok := stepTable.Load(m); ok {
+			si := v.(*stepInfo)
+			n := atomic.AddInt64(&si.n, 1)
+			if si.budget > 0 && n == si.budget && si.ctx != nil {
+				si.ctx.cancel()
+			}
+		}
+	}
+}
+
+// countSteps registers the machine for instruction counting; when budget > 0 the
+// machine's (resettable) context is cancelled once that many instructions ran in one run.
+func (m *Machine) countSteps(budget int64) *stepInfo {
+	si := &stepInfo{budget: budget, ctx: m.ctx}
+	stepTable.Store(m.E.VerifMachine(), si)
+	return si
+}
+
+func (m *Machine) release() {
+	if m.E != nil && m.E.VerifMachine() != nil {
+		stepTable.Delete(m.E.VerifMachine())
+	}
 }
 
 type FnSpec struct {
@@ -101,6 +185,9 @@ func newMachine(src string, vars [][2]interface{}, fns []FnSpec, optimize bool, 
 	m := &Machine{E: evalfilter.New(src)}
 	if ctx != nil {
 		m.E.SetContext(ctx)
+		if rc, ok := ctx.(*resetCtx); ok {
+			m.ctx = rc
+		}
 	}
 	for _, kv := range vars {
 		m.E.SetVariable(kv[0].(string), kv[1].(object.Object))
@@ -176,14 +263,42 @@ func (m *Machine) execAct(act string, obj interface{}) (out Outcome) {
 	return
 }
 
+// idle: what must hold of the machine between runs (EFVM: FramesRestoredWhenIdle,
+// ScopesBalancedWhenIdle): the main program installed, no call in progress
+func (m *Machine) idle(before string) string {
+	mc := m.E.VerifMachine()
+	if mc == nil {
+		return ""
+	}
+	if now := bytecodeIdentity(mc.VerifBytecode()); now != before {
+		return "program installed after the run is not the main program (" + now + " vs " + before + ")"
+	}
+	if n := mc.VerifCalls(); n != 0 {
+		return fmt.Sprintf("%d function calls still marked in progress", n)
+	}
+	return ""
+}
+
+func bytecodeIdentity(b code.Instructions) string {
+	if len(b) == 0 {
+		return "empty"
+	}
+	return fmt.Sprintf("%p/%d", &b[0], len(b))
+}
+
 func (m *Machine) exec(obj interface{}) (out Outcome) {
 	m.calls = nil
+	before := ""
+	if mc := m.E.VerifMachine(); mc != nil {
+		before = bytecodeIdentity(mc.VerifBytecode())
+	}
 	defer func() {
 		if r := recover(); r != nil {
 			out.Panic = r
 		}
 		out.Calls = m.calls
 		out.Scopes = m.E.VerifEnvironment().VerifScopeDepth()
+		out.Idle = m.idle(before)
 	}()
 	o, err := m.E.Execute(obj)
 	out.Out, out.Err = o, err
